@@ -18,6 +18,7 @@ META = {
             "exact-decimal f32 intervals. Inputs are sampled (seeded), not enumerated. Domain: distinct object numbers, max_id >= every "
             "number, finite reals, binary mark bytes >= 128, no objects typed XRef/ObjStm or carrying Linearized (save skips those).",
     "bins": ['c01'],
+    "seq_bins": ['loadseq'],
     "modules": ['Trace_Lifecycle.tla'],
     "design_ref": "DESIGN.md section 4 C01",
 }
